@@ -75,6 +75,8 @@ impl Perspective for Spy<'_> {
 struct Ren {
     fields: Vec<(String, String, Value)>, // name, type, run-time value
     lets: usize,
+    extra: String, // helper functions of this case (misplaced statements inside a pure function)
+    idx: usize,
 }
 
 impl Ren {
@@ -122,6 +124,18 @@ impl Ren {
                     s += &format!("{pad}check {c} else {e}\n");
                 }
                 "recall" => s += &format!("{pad}recall r()\n"),
+                "stray" => {
+                    // a finish-only statement outside a finish block (expected: rejected)
+                    let op = Self::ops(std::slice::from_ref(st.g("op")));
+                    if st.s("via") == "inline" {
+                        s += &format!("{pad}{op}\n");
+                    } else {
+                        self.lets += 1;
+                        let f = format!("sf{}_{}", self.idx, self.lets);
+                        self.extra += &format!("function {f}() int {{\n    {op}\n    return 1\n}}\n");
+                        s += &format!("{pad}let x{} = {f}()\n", self.lets);
+                    }
+                }
                 "finish" => s += &format!("{pad}finish {{ {}}}\n", Self::ops(st.a("ops"))),
                 "if" => {
                     let c = self.cond(st.b("c"));
@@ -196,13 +210,14 @@ struct Rendered {
 }
 
 fn render_case(idx: usize, case: &Jv) -> Rendered {
-    let mut r = Ren { fields: Vec::new(), lets: 0 };
+    let mut r = Ren { fields: Vec::new(), lets: 0, extra: String::new(), idx };
     let pol = r.block(case.a("policy"), 8);
     let rec = r.block(case.a("recall"), 8);
     let fdef: Vec<String> = r.fields.iter().map(|(n, t, _)| format!("{n} {t}")).collect();
     let fpass: Vec<String> = r.fields.iter().map(|(n, _, _)| format!("{n}: {n}")).collect();
     let text = format!(
-        "command P{idx} {{\n    attributes {{ priority: 0 }}\n    fields {{ {} }}\n{SEAL_OPEN}    policy {{\n{pol}    }}\n    recall r() {{\n{rec}    }}\n}}\naction a{idx}({}) {{ publish P{idx} {{ {} }} }}\n\n",
+        "{}command P{idx} {{\n    attributes {{ priority: 0 }}\n    fields {{ {} }}\n{SEAL_OPEN}    policy {{\n{pol}    }}\n    recall r() {{\n{rec}    }}\n}}\naction a{idx}({}) {{ publish P{idx} {{ {} }} }}\n\n",
+        r.extra,
         fdef.join(", "),
         fdef.join(", "),
         fpass.join(", ")
@@ -500,6 +515,11 @@ fn decide(
     if matches!(outcome, Outcome::RustPanic(_)) {
         return fail("C30:rust-panic", "the VM / VmPolicy panicked");
     }
+    if case.get("stray").and_then(|x| x.as_bool()) == Some(true) {
+        // a misplaced finish-only statement that the compiler accepted: the spec has no
+        // reference outcome for it; only the property's own predicate (above) decides
+        return json!({"i": i, "ok": true, "step": -1, "drift": 1, "accepted_stray": true, "obs": obs});
+    }
     // (2) effects emitted while handling a recall are marked
     if rec_spec && got_eff.iter().any(|(_, r)| !*r) {
         return fail("C30:recall-effect-not-marked", "an effect emitted while handling a recall has recalled = false");
@@ -544,10 +564,26 @@ pub fn run(args: &Args) {
     let mut results: Vec<(usize, Jv)> = Vec::new();
     let mut stats = Stats::default();
     let mut rejects = Vec::new();
-    let all: Vec<usize> = (0..cases.len()).collect();
+    let is_stray = |i: &usize| cases[*i].get("stray").and_then(|x| x.as_bool()) == Some(true);
+    let all: Vec<usize> = (0..cases.len()).filter(|i| !is_stray(i)).collect();
     for chunk in all.chunks(batch) {
         run_batch(force_vm, &cases, &rendered, chunk, &mut results, &mut stats, &mut rejects);
     }
+    // programs with a misplaced statement are expected to be rejected: one document each
+    let stray: Vec<usize> = (0..cases.len()).filter(is_stray).collect();
+    let mut stray_rejects = Vec::new();
+    let before = stats.rejected;
+    for i in &stray {
+        run_batch(force_vm, &cases, &rendered, &[*i], &mut results, &mut stats, &mut stray_rejects);
+    }
+    let stray_rejected = stats.rejected - before;
+    stats.rejected = before;
+    for (i, r) in results.iter_mut() {
+        if is_stray(i) && r.get("rejected").is_some() {
+            r["stray_rejected"] = json!(true);
+        }
+    }
+    eprintln!("stmts: {} programs with a misplaced finish-only statement, {} rejected by the compiler", stray.len(), stray_rejected);
     results.sort_by_key(|(i, _)| *i);
     let mut out = args.out();
     for (_, r) in results {
